@@ -613,6 +613,184 @@ def perfectTokens (k : Nat) : Bool := decide %s""" % (large["total_del_large"], 
 GENERATORS["Decisions"] = gen_decisions
 
 
+# ---------------------------------------------------------------------------------------------------------
+# realign: the collector protocol — the four process predicates, both copies of the `except queue.Empty` handler, the
+# sentinel test and the loop condition
+def _proc_pred(fn):
+    """`for p in processes: <returns or falls through>` [`else: ...`] + `return <b>`  ->  (lean body of the fold step, final value).
+    The loop body may be any nest of `if`s over `p.is_alive()` / `p.exitcode` whose leaves are `return True|False` or fall
+    through to the next process."""
+    body = [st for st in fn.body if not (isinstance(st, ast.Expr) and isinstance(st.value, ast.Constant))]
+    if len(body) not in (1, 2) or not isinstance(body[0], ast.For):
+        raise Untranslatable("%s is not a `for` over the processes followed by a `return`" % fn.name)
+    loop = body[0]
+    if not (isinstance(loop.target, ast.Name) and ast.unparse(loop.iter) == fn.args.args[0].arg):
+        raise Untranslatable("%s: loop shape" % fn.name)
+    v = loop.target.id
+
+    def cond(e):
+        if isinstance(e, ast.BoolOp):
+            return "(" + (" && " if isinstance(e.op, ast.And) else " || ").join(cond(x) for x in e.values) + ")"
+        if isinstance(e, ast.UnaryOp) and isinstance(e.op, ast.Not):
+            return "(!%s)" % cond(e.operand)
+        u = ast.unparse(e)
+        if u == "%s.is_alive()" % v:
+            return "p.1"
+        if isinstance(e, ast.Compare) and len(e.ops) == 1 and ast.unparse(e.left) == "%s.exitcode" % v:
+            t, r = type(e.ops[0]), e.comparators[0]
+            if isinstance(r, ast.Constant) and r.value is None and t in (ast.Is, ast.IsNot, ast.Eq, ast.NotEq):
+                return "p.2.isNone" if t in (ast.Is, ast.Eq) else "p.2.isSome"
+            if isinstance(r, ast.Constant) and isinstance(r.value, int) and not isinstance(r.value, bool) and t in (ast.Eq, ast.NotEq):
+                return "(p.2 %s some (%d : Int))" % ("==" if t is ast.Eq else "!=", r.value)
+            if isinstance(r, ast.Constant) and isinstance(r.value, int) and not isinstance(r.value, bool) and t in (ast.Lt, ast.Gt, ast.LtE, ast.GtE):
+                # an ordering comparison with None raises TypeError: only meaningful for exited processes
+                op = {ast.Lt: "<", ast.Gt: ">", ast.LtE: "≤", ast.GtE: "≥"}[t]
+                return "(match p.2 with | some c => decide (c %s (%d : Int)) | none => false)" % (op, r.value)
+        if isinstance(e, ast.Attribute) and u == "%s.exitcode" % v:      # truthiness of the exit code
+            return "(p.2.isSome && (p.2 != some (0 : Int)))"
+        raise Untranslatable("%s: condition %s" % (fn.name, u))
+
+    def boolc(e):
+        if isinstance(e, ast.Constant) and isinstance(e.value, bool):
+            return "true" if e.value else "false"
+        raise Untranslatable("%s: returns %s" % (fn.name, ast.unparse(e)))
+
+    def tree(stmts, fall):
+        if not stmts:
+            return fall
+        st, rest = stmts[0], stmts[1:]
+        if isinstance(st, ast.Return):
+            return boolc(st.value)
+        if isinstance(st, ast.Pass) or (isinstance(st, ast.Expr) and isinstance(st.value, ast.Constant)):
+            return tree(rest, fall)
+        if isinstance(st, ast.Continue):
+            return fall
+        if isinstance(st, ast.If):
+            return "(if %s then %s else %s)" % (cond(st.test), tree(st.body + rest, fall), tree(st.orelse + rest, fall))
+        raise Untranslatable("%s: statement %s" % (fn.name, ast.unparse(st)[:60]))
+    after = body[1:]
+    if loop.orelse:                                   # for ... else: runs when the loop was not left by `return`
+        final = tree(list(loop.orelse) + after, "false")
+    else:
+        final = tree(after, "false")
+    if final is None:
+        final = "false"           # falling off the end returns None, which every caller tests for truth
+    return tree(loop.body, "acc"), final
+
+
+def _handler_tree(stmts, names, ind):
+    """statements of an `except queue.Empty` handler -> an `Act` decision tree (exit1 / exit0 / cont / fall)"""
+    pad = " " * ind
+    if not stmts:
+        return pad + ".fall"
+    st, rest = stmts[0], stmts[1:]
+    if isinstance(st, ast.Continue):
+        return pad + ".cont"
+    if isinstance(st, ast.Break):
+        return pad + ".brk"
+    if isinstance(st, ast.Pass):
+        return _handler_tree(rest, names, ind)
+    if isinstance(st, ast.Expr) and isinstance(st.value, ast.Call):
+        u = ast.unparse(st.value.func)
+        if u in ("sys.exit", "exit", "os._exit"):
+            a = st.value.args
+            zero = (not a) or (isinstance(a[0], ast.Constant) and a[0].value in (0, None))
+            return pad + (".exit0" if zero else ".exit1")
+        if u.startswith("logger.") or u.startswith("logging.") or u == "stop_all" or u == "print":
+            return _handler_tree(rest, names, ind)
+        raise Untranslatable("handler calls %s" % u)
+    if isinstance(st, ast.Raise):
+        return pad + ".exit1"
+    if isinstance(st, ast.If):
+        def test(e):
+            if isinstance(e, ast.UnaryOp) and isinstance(e.op, ast.Not):
+                return "(!%s)" % test(e.operand)
+            if isinstance(e, ast.BoolOp):
+                return "(" + (" && " if isinstance(e.op, ast.And) else " || ").join(test(x) for x in e.values) + ")"
+            if isinstance(e, ast.Call) and isinstance(e.func, ast.Name) and e.func.id in names and ast.unparse(e.args[0]) == "processes" and len(e.args) == 1:
+                return names[e.func.id]
+            raise Untranslatable("handler tests %s" % ast.unparse(e))
+        then = _handler_tree(st.body + rest, names, ind + 2)
+        els = _handler_tree(st.orelse + rest, names, ind + 2)
+        return "%sif %s then\n%s\n%selse\n%s" % (pad, test(st.test), then, pad, els)
+    raise Untranslatable("handler statement %s" % ast.unparse(st)[:80])
+
+
+def gen_collector():
+    _, src = src_of("gaftools/cli/realign.py")
+    mod = ast.parse(src)
+    preds = {}
+    for py, lean in (("all_are_alive", "allAreAlive"), ("one_is_alive", "oneIsAlive"), ("all_exited", "allExited"), ("one_failed", "oneFailed")):
+        stepf, final = _proc_pred(find_func(mod, py))
+        preds[lean] = "def %s (ps : List Proc) : Bool := ps.foldr (fun p acc => %s) %s" % (lean, stepf, final)
+    fn = find_func(mod, "realign_gaf")
+    loops = [n for n in ast.walk(fn) if isinstance(n, ast.While)]
+    loops.sort(key=lambda n: n.lineno)
+    if len(loops) != 2:
+        raise Untranslatable("realign_gaf has %d collector loops, expected 2" % len(loops))
+    names = {"one_failed": "failed", "one_is_alive": "alive", "all_exited": "exited", "all_are_alive": "allAlive"}
+    defs = []
+    for lp, tag in zip(loops, ("Main", "Left")):
+        # while n_sentinels != len(processes):
+        t = lp.test
+        if not (isinstance(t, ast.Compare) and len(t.ops) == 1 and ast.unparse(t.left) == "n_sentinels" and ast.unparse(t.comparators[0]) == "len(processes)"):
+            raise Untranslatable("loop condition %s" % ast.unparse(t))
+        op = {ast.NotEq: "n != len", ast.Lt: "decide (n < len)", ast.LtE: "decide (n ≤ len)", ast.Gt: "decide (n > len)", ast.GtE: "decide (n ≥ len)", ast.Eq: "n == len"}[type(t.ops[0])]
+        body = [st for st in lp.body if not (isinstance(st, ast.Expr) and isinstance(st.value, ast.Constant))]
+        if len(body) != 2 or not isinstance(body[0], ast.Try) or not isinstance(body[1], ast.If):
+            raise Untranslatable("collector loop is not `try: get / except Empty` + `if sentinel`")
+        tr = body[0]
+        if not (len(tr.body) == 1 and isinstance(tr.body[0], ast.Assign) and "align_queue.get" in ast.unparse(tr.body[0].value)
+                and len(tr.handlers) == 1 and ast.unparse(tr.handlers[0].type) in ("queue.Empty", "Empty") and not tr.orelse and not tr.finalbody):
+            raise Untranslatable("try statement of the collector loop")
+        obj = tr.body[0].targets[0].id
+        iff = body[1]
+        # if out_string_obj is None: n_sentinels += 1  else: p_queue.put(out_string_obj)
+        tst = ast.unparse(iff.test)
+        if tst == "%s is None" % obj:
+            pos = True
+        elif tst == "%s is not None" % obj:
+            pos = False
+        else:
+            raise Untranslatable("sentinel test %s" % tst)
+
+        def arm(stmts):
+            u = [ast.unparse(x) for x in stmts if not (isinstance(x, ast.Expr) and isinstance(x.value, ast.Constant))]
+            if u == ["n_sentinels += 1"]:
+                return ".count"
+            if u == ["p_queue.put(%s)" % obj]:
+                return ".keep"
+            if u == ["n_sentinels += 1", "p_queue.put(%s)" % obj] or u == ["p_queue.put(%s)" % obj, "n_sentinels += 1"]:
+                return ".both"
+            if not u or u == ["pass"]:
+                return ".drop"
+            raise Untranslatable("arm of the sentinel test: %s" % u)
+        a_then, a_else = arm(iff.body), arm(iff.orelse)
+        if not pos:
+            a_then, a_else = a_else, a_then
+        defs.append("""/-- the `except queue.Empty` handler of the %s collector loop of `realign_gaf` as a decision over what `one_failed`,
+    `one_is_alive`, `all_exited`, `all_are_alive` answer -/
+def onEmpty%s (failed alive exited allAlive : Bool) : Act :=
+%s
+
+/-- what the %s loop does with a received object: `isNone` = it is the sentinel -/
+def onObject%s (isNone : Bool) : Recv := if isNone then %s else %s
+
+/-- the %s loop goes on while ... (`n` = sentinels counted, `len` = number of processes) -/
+def loopOn%s (n len : Nat) : Bool := %s""" % ({"Main": "in-loop", "Left": "leftover"}[tag], tag, _handler_tree(tr.handlers[0].body, names, 2),
+                                             {"Main": "in-loop", "Left": "leftover"}[tag], tag, a_then, a_else,
+                                             {"Main": "in-loop", "Left": "leftover"}[tag], tag, op))
+    return ("/-! generated by harness/translate.py from gaftools/cli/realign.py : the collector protocol — do not edit -/\n"
+            "namespace Gaftools.Gen\n"
+            "/-- a process as the parent sees it: `(is_alive(), exitcode)` -/\nabbrev Proc := Bool × Option Int\n"
+            "inductive Act where\n  | exit1 | exit0 | cont | brk | fall\nderiving DecidableEq, Repr\n"
+            "inductive Recv where\n  | count | keep | both | drop\nderiving DecidableEq, Repr\n\n"
+            + "\n".join(preds[k] for k in ("allAreAlive", "oneIsAlive", "allExited", "oneFailed")) + "\n\n" + "\n\n".join(defs) + "\nend Gaftools.Gen\n")
+
+
+GENERATORS["Collector"] = gen_collector
+
+
 def regenerate(only=None):
     """returns {name: {"tie": "A"|"B-only", "detail": str, "changed": bool}}"""
     os.makedirs(GEN, exist_ok=True)
@@ -638,6 +816,31 @@ def regenerate(only=None):
 
 
 FALLBACK = {
+    "Collector": """/-! FALLBACK (source construct outside the translator's subset): the collector protocol as modelled by hand -/
+namespace Gaftools.Gen
+abbrev Proc := Bool × Option Int
+inductive Act where
+  | exit1 | exit0 | cont | brk | fall
+deriving DecidableEq, Repr
+inductive Recv where
+  | count | keep | both | drop
+deriving DecidableEq, Repr
+
+def allAreAlive (ps : List Proc) : Bool := ps.foldr (fun p acc => (if (!p.1) then false else acc)) true
+def oneIsAlive (ps : List Proc) : Bool := ps.foldr (fun p acc => (if p.1 then true else acc)) false
+def allExited (ps : List Proc) : Bool := ps.foldr (fun p acc => (if (p.2 != some (0 : Int)) then false else acc)) true
+def oneFailed (ps : List Proc) : Bool := ps.foldr (fun p acc => (if (p.2.isSome && (p.2 != some (0 : Int))) then true else acc)) false
+
+def onEmptyMain (failed alive exited allAlive : Bool) : Act :=
+  if failed then .exit1 else if alive then .cont else if (!exited) then .exit1 else .cont
+def onObjectMain (isNone : Bool) : Recv := if isNone then .count else .keep
+def loopOnMain (n len : Nat) : Bool := n != len
+def onEmptyLeft (failed alive exited allAlive : Bool) : Act :=
+  if failed then .exit1 else if alive then .cont else if (!exited) then .exit1 else .cont
+def onObjectLeft (isNone : Bool) : Recv := if isNone then .count else .keep
+def loopOnLeft (n len : Nat) : Bool := n != len
+end Gaftools.Gen
+""",
     "Decisions": """/-! FALLBACK (source construct outside the translator's subset): the decisions as modelled by hand -/
 namespace Gaftools.Gen
 def sortInv (nf nr : Nat) : Bool := nf != 0 && nr != 0
